@@ -132,7 +132,13 @@ func runHistory(ops []regOp) {
 	// includers, outside the universe of names of the history
 	for a := 0; a < 3; a++ {
 		for b := 0; b < 3; b++ {
-			t, err := dyntpl.Parse([]byte(fmt.Sprintf("{%% include %s %s %%}", c04Keys[a], c04Keys[b])), false)
+			// (every other includer names two templates that are never registered first, in the
+			// shorter spelling of the tag: the lookup goes down the whole list)
+			src := fmt.Sprintf("{%% include %s %s %%}", c04Keys[a], c04Keys[b])
+			if (a+b)%2 == 1 {
+				src = fmt.Sprintf("{%% . zz-never-1 zz-never-2 %s %s %%}", c04Keys[a], c04Keys[b])
+			}
+			t, err := dyntpl.Parse([]byte(src), false)
 			if err == nil {
 				dyntpl.RegisterTplKey(fmt.Sprintf("inc-%d-%d", a, b), t)
 			}
